@@ -129,6 +129,10 @@ def run(rep):
                 probs.append('`%s` runs before the super test' % repr(ps.events[early[0]])[:60])
             if t is None:
                 continue
+            if ps.facts.get('(%s < 0)' % test) is True:
+                # the test itself failed (an error, not an answer): not a super
+                # object; what the path does then is C10 F4's business
+                continue
             kinds.add(t)
             if t:
                 if csem.ret(ps) != route:
